@@ -260,13 +260,13 @@ class ViewAnalysis:
         return ("unknown", "callers disagree: %s" % sorted(set(map(str, sts))))
 
 
-def r3(ctx, cfg):
+def r3(ctx, cfg, R="C08.R3", files=None, floor=None):
     F, P = cfg.facts, cfg.prov
-    R = "C08.R3"
     va = ViewAnalysis(cfg)
     n = 0
+    item_ns = {}
     for f in F.user_fns():
-        if f.file not in MODULE_NS:
+        if f.file not in MODULE_NS or (files is not None and f.file not in files):
             continue
         allowed = MODULE_NS[f.file]
         for bid, t in f.calls():
@@ -286,6 +286,8 @@ def r3(ctx, cfg):
                 n += 1
                 st = va.classify(f, args[i])
                 inst = "%s%s" % (c["key"], _site_tag(f, t))
+                if st[0] == "view" and args and peel(args[0])[0] == "item":
+                    item_ns.setdefault(peel(args[0])[1], {}).setdefault(st[1], []).append("%s:%s" % (f.key.rsplit("::", 1)[-1], t["line"]))
                 exc = ROOT_STORE_EXCEPTIONS.get((f.key.split("::{closure")[0], c["key"]))
                 if st[0] == "view":
                     ok = st[1] in allowed
@@ -303,7 +305,12 @@ def r3(ctx, cfg):
                     ok = False
                     msg = "%s operates on %s (%s), expected a view of %s" % (c["key"], st[0], st[1] if len(st) > 1 else "", sorted(allowed))
                 ctx.ob(R, f.key, inst, ok, msg, fn=f, line=t["line"], sample="%s on %s" % (c["key"].rsplit("::", 2)[-2] + "::" + c["name"], st))
-    ctx.floor(R, "store operations in module files", n, 8 if not cfg.has("staking") else 45)
+    # writer and readers of one stored item agree on the namespace it lives in (an item read under another view than the one it
+    # is written under is never found: the reader silently gets the default)
+    for item, nss in sorted(item_ns.items()):
+        ctx.ob(R, item, "item-accessed-under-one-namespace", len(nss) == 1,
+               "%s is accessed under different views: %s" % (item, {k: v[:3] for k, v in sorted(nss.items())}), sample=sorted(nss)[0])
+    ctx.floor(R, "store operations in module files", n, floor if floor is not None else (8 if not cfg.has("staking") else 45))
 
 
 def r4(ctx, cfg):
